@@ -295,6 +295,9 @@ MUST_REJECT = [(("States", "T"), []), (("States", "T"), {}), (("States", "M", "M
                (("States", "P", "Branches", 0), {}), (("States", "C", "Choices", 0), {}), (("States", "P", "Branches", 0), [])]
 
 
+MUST_REJECT_DEFS = [{"StartAt": "", "States": {}}, {"StartAt": "A", "States": {}}, {"StartAt": "", "States": {"A": {"Type": "Succeed"}}}]
+
+
 def run_typed(k, extra):
     """The validator alone: every field of a machine that uses every state type (and Retry / Catch) x every JSON type
     in its place - it must report problems (return a list), never raise."""
@@ -313,6 +316,13 @@ def run_typed(k, extra):
                                  "seed": k, "typed": [list(p), v]})
                 break
     if k == 0:
+        for bad in MUST_REJECT_DEFS:
+            n += 1
+            problems, crash = validate(copy.deepcopy(bad))
+            if not crash and not problems:
+                findings.append({"property": PROP, "rule": "validator-accepts-malformed", "witness": "whole-definition",
+                                 "detail": "StateLint.validate reports no problem for %s" % json.dumps(bad), "seed": k,
+                                 "typed_def": bad})
         for p, v in MUST_REJECT:
             m = copy.deepcopy(TYPED_BASE)
             get(m, p[:-1])[p[-1]] = v
@@ -553,6 +563,11 @@ def main(argv):
         with open(argv[1]) as f:
             rec = json.load(f)
         i = rec["seed"] - common.base_seed() * 1000003
+        if rec.get("typed_def") is not None:
+            problems, crash = validate(copy.deepcopy(rec["typed_def"]))
+            hit = not crash and not problems
+            print("replay %s: %s" % (argv[1], "REPRODUCED" if hit else "not reproduced"))
+            return 1 if hit else 0
         if rec.get("typed"):
             m = copy.deepcopy(TYPED_BASE)
             get(m, rec["typed"][0][:-1])[rec["typed"][0][-1]] = rec["typed"][1]
